@@ -61,6 +61,13 @@ var propInfo = map[string]struct {
 			"NOT covered: re-association of + and * chains (tryReorderBinaryOp, isBinaryOpExprAllValue), folding of constant function calls (tryOptimizeFunctionCall: assumed thin contract), and the composition over the whole tree (in-place mutation of a tree needs an ownership argument outside this contract language)",
 			"floats are uninterpreted: no claim about IEEE rounding of re-associated chains (outside the property by its own quantifier)",
 		}},
+	"C07": {"proof",
+		"Order plan, proved on the real code: the comparators return the sign of the documented order (integers and floats numerically, text byte-wise, false before true, negated for DESC; values of different kinds compare as unordered instead of panicking); Less is exactly the lexicographic order over the ORDER BY keys (first differing key decides, ties are not less - stated with a ghost index); the heap adapter's Len/Swap/Push/Pop/Less are exact; Init resolves every order field to the position of the select field of that name; prepare/prepareBatch push every row of the child exactly once (ghost heap size = total - pos, child drained), Next/Batch pop one row per returned row and stop exactly when all have been returned; buildFinalOrderPlan elides only a lone `order by key asc` on a non-aggregate query.",
+		[]string{
+			"T-STD: container/heap.Pop returns a minimum (by the adapter's Less) of the rows pushed and not yet popped - that the output is sorted and a permutation rests on this and on the proved facts that Less is the documented order and that every row is pushed and popped exactly once",
+			"kcmp is the name given to the result of compare (a definitional clause, admissible because compare reads no memory)",
+			"that a lone `order by key asc` may be elided rests on C01 (scan order), not yet claimed",
+		}},
 }
 
 func propLevel(p string) (string, bool) {
